@@ -28,12 +28,13 @@ class State:
         self.env = dict(env or {})
         self.heap = dict(heap or {})
         self.ver = dict(ver or {})
-        self.pc = list(pc or [])
-        self.ghost = dict(ghost or {})
+        # pc and ghost are shared by reference between the views of one path (State(...)); fork() copies them
+        self.pc = pc if pc is not None else []
+        self.ghost = ghost if ghost is not None else {}
         self.side = []            # side exits produced while evaluating an expression: (state, exc)
 
     def fork(self):
-        return State(self.env, self.heap, self.ver, self.pc, self.ghost)
+        return State(self.env, self.heap, self.ver, list(self.pc), dict(self.ghost))
 
     def assume(self, f):
         if f is True:
